@@ -61,6 +61,12 @@ def generate(rng, tier, shard, nshards):
             yield {'lane': 'translate-exact-polygon', 'nv': rng.choice([3, 3, 5, 6, 7, 9, 4]), 'q': rng.choice([1, 2, 4]), 'n': rng.choice([1, 2, 4, 8]),
                    'tx': rng.choice([0, 1, -3, rng.randint(-10 ** 4, 10 ** 4)]), 'ty': rng.choice([1, 0, 7, rng.randint(-10 ** 4, 10 ** 4)]),
                    'rs': rng.randrange(2 ** 31)}
+        elif rng.random() < 0.25:
+            # bounding boxes of the regions without a mask (point / text / line), coordinates on the 1/8 lattice incl. pixel edges
+            # (k + 1/2) and pixel centres, odd and even integer shifts
+            yield {'lane': 'translate-box', 'cls': rng.choice(['PointPixelRegion', 'TextPixelRegion', 'LinePixelRegion']),
+                   'tx': rng.choice([1, -1, 2, 7, -3, rng.randint(-10 ** 4, 10 ** 4)]), 'ty': rng.choice([0, 1, 3, -5, rng.randint(-10 ** 4, 10 ** 4)]),
+                   'rs': rng.randrange(2 ** 31)}
         else:
             cls = rng.choice(gen.MASKABLE + ['compound'])
             mode = 'center' if (cls == 'compound' or 'Annulus' in cls) else rng.choice(['center', 'subpixels', 'subpixels', 'exact'])
@@ -275,6 +281,21 @@ def run_case(case, obs):
             b0, b1 = m0.bbox, m1.bbox
             obs.check((b1.ixmin, b1.ixmax, b1.iymin, b1.iymax) == (b0.ixmin + tx, b0.ixmax + tx, b0.iymin + ty, b0.iymax + ty),
                       'translated-bbox-differs', f'lattice polygon: box {b0!r} translated by ({tx},{ty}) became {b1!r}', 'trans-bbox')
+        return
+    if case['lane'] == 'translate-box':
+        D = lambda: prng.randint(-40, 40) + prng.choice([0.0, 0.5, 0.5, 0.25, 0.125, 0.75])
+        cls = case['cls']
+        if cls == 'LinePixelRegion':
+            spec = S.reg(cls, start=S.pix(D(), D()), end=S.pix(D(), D()))
+        else:
+            spec = S.reg(cls, center=S.pix(D(), D()))
+            if cls == 'TextPixelRegion':
+                spec['p']['text'] = 't'
+        tx, ty = case['tx'], case['ty']
+        r0, r1 = S.build(spec), S.build(c04.shift_spec(spec, float(tx), float(ty)))
+        b0, b1 = r0.bounding_box, r1.bounding_box
+        obs.check((b1.ixmin, b1.ixmax, b1.iymin, b1.iymax) == (b0.ixmin + tx, b0.ixmax + tx, b0.iymin + ty, b0.iymax + ty),
+                  'translated-bbox-differs', f'{cls} {spec["p"]}: box {b0!r} translated by ({tx},{ty}) became {b1!r}', 'trans-bbox')
         return
     # translation
     spec = dyadic_region_spec(prng, case['cls'])
